@@ -78,7 +78,8 @@ def ingest(pid: str, k: str, tests: list[str]) -> int:
         ran = []
         for t in tests:
             r = subprocess.run(
-                [PY, "-m", "pytest", t, "-q", "-p", "no:cacheprovider",
+                [PY, "-m", "pytest", *t.split(), "-q", "-p",
+                 "no:cacheprovider",
                  "--timeout=900", "-x"], cwd=tmp, env=env_for(tmp),
                 capture_output=True, text=True)
             tail = r.stdout.strip().splitlines()[-1] if r.stdout.strip() \
@@ -163,7 +164,7 @@ def main() -> int:
         tests: list[str] = []
         if "--tests" in a:
             i = a.index("--tests")
-            tests = a[i + 1].split()
+            tests = [t.strip() for t in a[i + 1].split(",") if t.strip()]
             del a[i:i + 2]
         return ingest(a[1], a[2], tests)
     if a[0] == "run":
